@@ -15,6 +15,7 @@ def run(res, tier, replay=None):
                        "length fields are written only on an object allocated earlier in the same function; (c) every sexp_make_heap call passes a size that is provably a multiple of the allocation granule (abstract evaluation of the size expression: align masks, aligned sums, integer multiples, ceil). Not decided: "
                        "coalescing arithmetic of sexp_sweep, free-list order, growth policy, boundedness of heap size.")
     if tier == "thorough":
+        common.config_matrix(res, lambda p, r: (f3.c10a_alloc_sites(p, r), f3.c10b_length_writers(p, r)), violation=False)
         common.thorough_mutations(res, "C10", {
             "C10.a": lambda p, r: f3.c10a_alloc_sites(p, r),
             "C10.b": lambda p, r: f3.c10b_length_writers(p, r),
